@@ -588,7 +588,8 @@ fn run_child(stream: &str, depth: usize, scratch: &Path) -> String {
                 return out.trim().to_string();
             }
             Ok(None) => {
-                if start.elapsed().as_secs() > 60 {
+                let limit = if stream.starts_with("fifo") { 10 } else { 60 };
+                if start.elapsed().as_secs() > limit {
                     let _ = child.kill();
                     let _ = child.wait();
                     return "timeout".into();
@@ -645,6 +646,29 @@ pub fn single(stream: &str, depth: usize) -> String {
         "deep-designspace-lib" => {
             let doc = DESIGNSPACE.replace("<key>a</key><true/>", &format!("<key>a</key>{}", nested_plist(depth, "array")));
             run_designspace(doc.as_bytes(), &scratch)
+        }
+        "fifo-in-data" | "fifo-in-images" | "fifo-as-glif" => {
+            // a named pipe where a plain file is expected: reading it would block for ever
+            let base = scratch.join("base.ufo");
+            base_ufo(&base);
+            let p = match stream {
+                "fifo-in-data" => base.join("data/pipe"),
+                "fifo-in-images" => base.join("images/pipe.png"),
+                _ => {
+                    let g = base.join("glyphs/B_.glif");
+                    let _ = std::fs::remove_file(&g);
+                    g
+                }
+            };
+            let _ = std::process::Command::new("mkfifo").arg(&p).status();
+            let r = guarded(|| {
+                let f = Font::load(&base)?;
+                let _ = f.save(scratch.join("out.ufo"));
+                Ok::<(), norad::error::FontLoadError>(())
+            });
+            let o = outcome(r);
+            rm_rf(&base);
+            o
         }
         "deep-glif-elements" => {
             let mut doc = String::from("<?xml version=\"1.0\" encoding=\"UTF-8\"?>\n<glyph name=\"a\" format=\"2\">");
@@ -766,6 +790,11 @@ pub fn gen(tier: &str, seed: u64, out: &mut dyn Write) {
             let o = run_child(s, *d, &scratch);
             writeln!(out, "C03 deep {} {} => {}", s, d, o).unwrap();
         }
+    }
+    // 6. special files where plain files are expected (child process + watchdog: a read would hang)
+    for s in ["fifo-in-data", "fifo-in-images", "fifo-as-glif"] {
+        let o = run_child(s, 0, &scratch);
+        writeln!(out, "C03 deep {} 0 => {}", s, o).unwrap();
     }
     rm_rf(&scratch);
 }
